@@ -138,6 +138,16 @@ def check_shape_cases(L, drv, FAM, items, stats, preds):
             stats["has_zero_dim"] += 1
         if F["branch"]:
             stats[f"branch:{name}:{F['branch'](case)}"] += 1
+        for key in ("dim", "a", "b", "d1", "d2"):
+            if key in case and isinstance(case[key], int) and name not in ("add", "sub"):
+                r_ = rank + (1 if name in ("unsqueeze", "stack") else 0)
+                v = case[key]
+                cls = "rank0" if r_ == 0 else "neg" if -r_ <= v < 0 else "nonneg" if 0 <= v < r_ else "out_of_range"
+                stats[f"dimclass:{name}:{cls}"] += 1
+                stats[f"dimclass:*:{cls}"] += 1
+        for key in ("dims",):
+            if key in case and case[key]:
+                stats[f"dimclass:{name}:list_with_neg" if any(v < 0 for v in case[key]) else f"dimclass:{name}:list_nonneg"] += 1
         in_domain = s_res != "ERR"
         stats["in_domain" if in_domain else "out_of_domain"] += 1
         if real["res"] == "ERR":
@@ -220,10 +230,11 @@ def main(run: core.Run) -> None:
     drift = core.fingerprint_drift("C08", "onnxscript/function_libs/torch_lib/ops/core.py",
                                    sorted({FAM[n]["fnname"] for n in names}))
     run.coverage["fingerprint_drift"] = drift
-    per_fn = run.size(26, 260)
+    per_fn = run.size(56, 300)
+    WEIGHT = {"flatten": 4, "roll": 2, "cat": 2, "unflatten": 2, "argmax": 2, "argmin": 2, "all_dim": 2, "any_dim": 2}
     drifted = {n for n in names if FAM[n]["fnname"] in drift}
     for n in names:
-        k = per_fn * (4 if (n in drifted and run.tier == "quick") else 1)
+        k = per_fn * WEIGHT.get(n, 1) * (4 if (n in drifted and run.tier == "quick") else 1)
         for _ in range(k):
             items.append((n, FAM[n]["gen"](run.rng)))
     seen = set()
@@ -326,5 +337,9 @@ def main(run: core.Run) -> None:
     )
     for n, c in uniq[:3] + uniq[len(uniq) // 2: len(uniq) // 2 + 3]:
         run.sample({"name": n, "line": FAM[n]["line"](c), "dtype": c.get("dtype")})
+    if run.tier == "quick" or True:
+        for br in ("identity", "Flatten(axis=1)", "Flatten(axis=end+1)", "reshape"):
+            if stats[f"branch:flatten:{br}"] < 12:
+                raise core.Infra(f"generator degenerated: aten_flatten branch {br} hit {stats[f'branch:flatten:{br}']} times")
     if stats["cases"] and stats["out_of_domain"] > 0.4 * stats["cases"]:
         raise core.Infra("generator degenerated: >40% of cases outside PyTorch's domain")
